@@ -223,6 +223,8 @@ def scenarios(prop, tier, rng):
         out.append(("n3", scen(n=3, leader=2, consts=[True, False, False], out=[True, True, False], cancel=1)))
         # cancel together with a failing coordination call (a notification may already have been sent)
         out.append(("n2cf", scen(n=2, cancel=1, rpcfail=1)))
+        # all three kinds of disturbance in one run (every invariant of C13-C17 is checked on the model for it)
+        out.append(("mix2", scen(n=2, cancel=1, rpcfail=1, stray=1)))
         if not q:
             out.append(("n2c2", scen(n=2, cancel=2)))
             out.append(("n3b", scen(n=3, leader=0, consts=[False, False, False], cancel=1)))
@@ -262,6 +264,7 @@ def scenarios(prop, tier, rng):
         out.append(("n2k2", scen(n=2, comps=2, leader=[0, 0], conc=[1, 1], rpcfail=1)))
         out.append(("n3f", scen(n=3, rpcfail=1, leader=1, consts=[True, True, False], out=[True, False, True])))
         out.append(("n2c", scen(n=2, cancel=1, out=[False, True])))
+        out.append(("mix2", scen(n=2, cancel=1, rpcfail=1, stray=1, leader=1, consts=[True, False])))
         if not q:
             out.append(("n2k3", scen(n=2, comps=3, leader=[0, 0, 1], conc=[2, 1], rpcfail=1)))
             out.append(("n2k2c", scen(n=2, comps=2, leader=[0, 0], conc=[1, 1], rpcfail=1, cancel=1)))
@@ -286,14 +289,16 @@ def check_server(prop, tier, replay):
     # (1) exhaustive exploration of the specification
     states = trans = 0
     mcs = []
+    all_invs = sorted(set(sum(MC_INVS.values(), [])))
     for name, sc in ([] if os.environ.get("VERIF_SKIP_MC") else scs):
+        invs = all_invs if name.startswith("mix") else MC_INVS[prop]
         big = len(sc["pol"]) * sc["n"] >= 6 or (sc["n"] == 3 and sum(sc["faults"].values()) > 0)
         if q and big and prop != "C13":
             # bounded by time in the quick tier: simulation
-            r = run_mc(wd, f"mc-{name}", sc, MC_INVS[prop], workers=4, timeout=300, simulate="num=3000", extra=["-depth", "300"])
+            r = run_mc(wd, f"mc-{name}", sc, invs, workers=4, timeout=300, simulate="num=3000", extra=["-depth", "300"])
             mode = "simulate"
         else:
-            r = run_mc(wd, f"mc-{name}", sc, MC_INVS[prop], workers=8, timeout=3000)
+            r = run_mc(wd, f"mc-{name}", sc, invs, workers=8, timeout=3000)
             mode = "exhaustive"
         if not r["ok"]:
             raise vlib.ToolError(f"MC_Server reports an error for scenario {name} (spec and tree disagree?):\n"
